@@ -98,6 +98,21 @@ Definition HInv (E : list emit) (hs : hst) : Prop :=
 Lemma HInv_ext E hs hs1 : h_job hs1 = h_job hs -> h_file hs1 = h_file hs -> HInv E hs -> HInv E hs1.
 Proof. intros Hj Hf H. unfold HInv in *. rewrite Hj, Hf. exact H. Qed.
 
+Lemma HInv_le E hs : HInv E hs -> cur (h_job hs) <= len (h_file hs).
+Proof.
+  intros (Ho & Hof & b & rest & E' & i & Hd & Hc & _).
+  assert (Hlen : len (h_file hs) - o = len b + len rest).
+  { rewrite <- (len_drop o (h_file hs)) by lia. rewrite Hd. apply len_app. }
+  pose proof (len_nonneg rest). lia.
+Qed.
+
+(* without a truncation the position is never behind the end: the truncation check of a write notification is void *)
+Lemma h_untrunc_id E hs : HInv E hs -> h_untrunc hs = hs.
+Proof.
+  intros HI. unfold h_untrunc. pose proof (HInv_le E hs HI) as H.
+  replace (cur (h_job hs) >? len (h_file hs)) with false by lia. reflexivity.
+Qed.
+
 (* a worker pass reads everything behind the position; the truncation branch is not taken *)
 Lemma h_pass_inv E hs n es hs' : HInv E hs -> h_pass c rd n hs = (es, hs') ->
   HInv (E ++ es) hs' /\ h_file hs' = h_file hs /\ cur (h_job hs') = len (h_file hs')
@@ -136,7 +151,7 @@ Lemma h_step_inv E hs op r es hs' : HInv E hs ->
   HInv (E ++ es) hs'
   /\ h_file hs' = h_file hs ++ appended [op].
 Proof.
-  intros HI Hop Hs. destruct op as [a|n|n|k|]; cbn [h_step appended] in *; try rewrite !app_nil_r.
+  intros HI Hop Hs. destruct op as [a|n|n|k| |n|n]; cbn [h_step appended] in *; try rewrite !app_nil_r.
   - (* append *)
     inversion Hs; subst r es hs'; clear Hs. rewrite app_nil_r. cbn [h_file]. split; [|reflexivity].
     destruct HI as (Ho & Hof & b & rest & E' & i & Hd & Hc & Hi & HF & W).
@@ -166,6 +181,22 @@ Proof.
   - (* rename / rotation *)
     inversion Hs; subst r es hs'. rewrite app_nil_r. split; [|reflexivity].
     apply (HInv_ext E hs); [reflexivity|reflexivity|exact HI].
+  - (* write notification: the truncation check is void, then a pass *)
+    destruct (h_deleted hs).
+    + inversion Hs; subst r es hs'. rewrite app_nil_r. split; [exact HI|reflexivity].
+    + rewrite (h_untrunc_id E hs HI) in Hs.
+      destruct (h_pass c rd n hs) as [es1 hs1] eqn:Hp. inversion Hs; subst r es hs'; clear Hs.
+      destruct (h_pass_inv E hs n es1 hs1 HI Hp) as (H1 & H2 & _). split; assumption.
+  - (* maintenance tick with remove_after expired *)
+    destruct (h_deleted hs).
+    + inversion Hs; subst r es hs'. rewrite app_nil_r. split; [exact HI|reflexivity].
+    + unfold h_maint_exp in Hs. destruct (negb (h_done hs)).
+      * inversion Hs; subst r es hs'. rewrite app_nil_r. split; [exact HI|reflexivity].
+      * destruct (negb (len (h_file hs) =? cur (h_job hs))).
+        -- destruct (h_pass c rd n hs) as [es1 hs1] eqn:Hp. inversion Hs; subst r es hs'; clear Hs.
+           destruct (h_pass_inv E hs n es1 hs1 HI Hp) as (H1 & H2 & _). split; assumption.
+        -- inversion Hs; subst r es hs'; rewrite app_nil_r.
+           split; [|reflexivity]. apply (HInv_ext E hs); [reflexivity|reflexivity|exact HI].
 Qed.
 
 Lemma h_run_inv : forall ops E0 hs, HInv E0 hs -> no_trunc ops ->
@@ -338,7 +369,201 @@ Proof.
     replace (len (h_file hs) =? cur (h_job hs)) with false by lia. cbn [negb]. rewrite Hp. reflexivity.
 Qed.
 
+(* a write notification on a file that was not truncated below the read position is a plain pass *)
+Theorem notify_is_pass hs n : cur (h_job hs) <= len (h_file hs) ->
+  h_step c rd (HNotify n) hs = h_step c rd (HPass n) hs.
+Proof.
+  intros H. cbn [h_step]. unfold h_untrunc.
+  replace (cur (h_job hs) >? len (h_file hs)) with false by lia. reflexivity.
+Qed.
+
+(* remove_after expired: the tick deletes an idle job (and removes its file) whether or not a tail is held back;
+   a job that is not done, or whose file changed size, is treated as by the ordinary tick *)
+Theorem maint_exp_removes_idle hs n :
+  h_done hs = true -> h_deleted hs = false -> len (h_file hs) = cur (h_job hs) ->
+  h_step c rd (HMaintExp n) hs =
+  (Some 3, [], {| h_job := h_job hs; h_done := true; h_deleted := true; h_moved := h_moved hs; h_file := h_file hs |}).
+Proof.
+  intros Hd Hx Hl. cbn [h_step]. rewrite Hx. unfold h_maint_exp. rewrite Hd, Hl, Z.eqb_refl. reflexivity.
+Qed.
+
+Theorem maint_exp_reads_first hs n :
+  h_deleted hs = false -> (h_done hs = false \/ len (h_file hs) <> cur (h_job hs)) ->
+  h_step c rd (HMaintExp n) hs = h_step c rd (HMaint n) hs.
+Proof.
+  intros Hx H. cbn [h_step]. rewrite Hx. unfold h_maint_exp, h_maint.
+  destruct (h_done hs); cbn [negb]; [|reflexivity].
+  destruct H as [H|H]; [discriminate|].
+  replace (len (h_file hs) =? cur (h_job hs)) with false by lia. reflexivity.
+Qed.
+
 End Hist.
+
+(* truncation below the read position seen by a WRITE NOTIFICATION (refreshFile -> checkFileWasTruncated): the job
+   restarts at 0 without the old tail and the same pass already delivers the new content: the specification of the
+   whole file from offset 0 *)
+Lemma drop_zero (f : bytes) : drop 0 f = f.
+Proof. reflexivity. Qed.
+
+Theorem hist_truncation_notify_rereads c rd hs n : 0 <= wmax c -> rd_sound rd ->
+  h_deleted hs = false -> len (h_file hs) < cur (h_job hs) ->
+  let '(r, E, hs') := h_step c rd (HNotify n) hs in
+  let sk := skip (h_job hs) in
+  r = None /\ h_file hs' = h_file hs /\ h_done hs' = true
+  /\ cur (h_job hs') = len (h_file hs)
+  /\ Forall2 (emitR c) E (spec_emits c sk 0 (h_file hs))
+  /\ skip (h_job hs') = sk && negb (has_line (h_file hs))
+  /\ accR c (snd (split_lines (h_file hs))) (tail (h_job hs')).
+Proof.
+  intros Hm Hrd Hx Hl. cbn [h_step]. rewrite Hx. unfold h_untrunc.
+  replace (cur (h_job hs) >? len (h_file hs)) with true by lia.
+  set (sk := skip (h_job hs)).
+  set (hs1 := {| h_job := {| cur := 0; tail := []; skip := sk |}; h_done := h_done hs; h_deleted := h_deleted hs;
+                 h_moved := h_moved hs; h_file := h_file hs |}).
+  assert (H0 : 0 <= 0 <= len (h_file hs)) by (pose proof (len_nonneg (h_file hs)); lia).
+  pose proof (HInv_start c 0 sk (h_file hs) (h_done hs) (h_deleted hs) (h_moved hs) H0) as HI.
+  change {| h_job := st_at 0 sk; h_done := h_done hs; h_deleted := h_deleted hs; h_moved := h_moved hs; h_file := h_file hs |}
+    with hs1 in HI.
+  destruct (h_pass c rd n hs1) as [es hs'] eqn:Hp.
+  destruct (h_pass_inv c rd Hm Hrd 0 sk [] hs1 n es hs' HI Hp) as (HI' & Hf & Hc & _ & _ & Hd).
+  cbn [app] in HI'. pose proof (HInv_final c 0 sk es hs' HI') as HF. cbv zeta in HF.
+  rewrite Hf in *. cbn [hs1 h_file] in *. rewrite Hc, drop_zero, Z.sub_0_r in HF.
+  assert (Ht : take (len (h_file hs)) (h_file hs) = h_file hs).
+  { pose proof (take_app_len (h_file hs) []) as T. rewrite app_nil_r in T. exact T. }
+  rewrite Ht in HF. destruct HF as (_ & H2 & H3 & H4).
+  split; [reflexivity|]. split; [reflexivity|]. split; [exact Hd|]. split; [exact Hc|]. split; [exact H2|]. split; assumption.
+Qed.
+
+(* ---------------------------------------------------------------- compressed (lz4) jobs *)
+(* the skip loop stops at a position L that is not behind the minimum saved offset m, and what it leaves to the pass is
+   exactly the content from L on - provided m lies inside the content *)
+Lemma lz4_skip_spec n m : 1 <= n -> forall fuel pre rest,
+  (length rest < fuel)%nat -> len pre <= Z.max 0 m -> m <= len pre + len rest ->
+  exists pre' rest', lz4_skip fuel n m (len pre) rest = (len pre', rest')
+                     /\ pre ++ rest = pre' ++ rest' /\ len pre' <= Z.max 0 m.
+Proof.
+  intros Hn. induction fuel as [|f IH]; intros pre rest Hf Hp Hm; [inversion Hf|].
+  cbn [lz4_skip]. destruct (len pre + n <? m) eqn:Hlt.
+  - assert (Hfit : (n <=? len rest) = true) by lia. rewrite Hfit.
+    assert (Hsplit : rest = take n rest ++ drop n rest) by (unfold take, drop; symmetry; apply firstn_skipn).
+    assert (Hlt_ : len (take n rest) = n).
+    { unfold take. rewrite len_firstn. rewrite Z2Nat.id by lia. lia. }
+    assert (Hld : len (drop n rest) = len rest - n) by (apply len_drop; pose proof (len_nonneg rest); lia).
+    specialize (IH (pre ++ take n rest) (drop n rest)).
+    rewrite len_app, Hlt_ in IH.
+    destruct IH as (pre' & rest' & H1 & H2 & H3).
+    + assert (Hlr : (length (drop n rest) < length rest)%nat).
+      { unfold drop. rewrite skipn_length. unfold len in Hfit. lia. }
+      lia.
+    + lia.
+    + lia.
+    + exists pre', rest'. split; [exact H1|]. split; [|exact H3].
+      rewrite <- H2, <- app_assoc, <- Hsplit. reflexivity.
+  - exists pre, rest. repeat split. exact Hp.
+Qed.
+
+Lemma split_tail_nil_right a b : snd (split_lines (a ++ b)) = [] -> snd (split_lines b) = [].
+Proof.
+  intros H. rewrite split_lines_app in H. cbn [snd] in H.
+  destruct (split_lines_spec a) as (_ & _ & Hna). set (t := snd (split_lines a)) in *.
+  destruct (split_lines_spec b) as (Hb & Hlb & Hnb).
+  destruct (fst (split_lines b)) as [|l ls] eqn:Hfl.
+  - (* b has no newline: t ++ b has none either, its remainder is all of it *)
+    cbn [concat app] in Hb.
+    assert (Hnn : noNL (t ++ b)) by (rewrite Hb at 1; apply noNL_app; assumption).
+    rewrite (split_lines_nonl _ Hnn) in H. cbn [snd] in H.
+    apply app_eq_nil in H. destruct H as [_ H]. rewrite H. reflexivity.
+  - (* b = l0 ++ NL :: more: the remainder of t ++ b is the remainder of b *)
+    inversion Hlb as [|? ? H1 H2]; subst. destruct H1 as [l0 [-> Hl0]].
+    rewrite Hb in H at 1. cbn [concat] in H. rewrite <- !app_assoc in H. cbn [app] in H.
+    rewrite app_assoc in H.
+    rewrite (split_lines_nonl_app (t ++ l0) _ (noNL_app _ _ Hna Hl0)) in H. cbn [snd] in H.
+    rewrite (split_lines_of_lines ls _ H2 Hnb) in H. cbn [snd] in H. exact H.
+Qed.
+
+Lemma filter_with_off_le (m : Z) ls : forall base, base + len (concat ls) <= m ->
+  filter (fun e : emit => m <? fst e) (with_off base ls) = [].
+Proof.
+  induction ls as [|l ls IH]; intros base H; cbn [with_off filter]; [reflexivity|].
+  cbn [concat] in H. rewrite len_app in H. pose proof (len_nonneg (concat ls)). cbn [fst].
+  replace (m <? base + len l) with false by lia. apply IH. lia.
+Qed.
+
+Lemma filter_with_off_gt (m : Z) ls : Forall is_line ls -> forall base, m <= base ->
+  filter (fun e : emit => m <? fst e) (with_off base ls) = with_off base ls.
+Proof.
+  intros Hl. induction Hl as [|l ls [l0 [-> _]] _ IH]; intros base H; cbn [with_off filter]; [reflexivity|].
+  cbn [fst]. rewrite len_app. pose proof (len_nonneg l0). change (len [NL]) with 1.
+  replace (m <? base + (len l0 + 1)) with true by lia. f_equal. apply IH. lia.
+Qed.
+
+(* resume of a compressed job: the pass starts at ANY position L = len pre1 that is not behind the saved offset
+   m = len (pre1 ++ pre2), m a line end of the file. What it hands over with an offset behind m is exactly the list of
+   the lines of the whole file that end behind m, each with its offset in the decompressed stream; together with the
+   lines up to m (delivered before the restart) this is the line list of the whole file. Every split into reads. *)
+Theorem lz4_resume_exact pre1 pre2 b reads :
+  snd (split_lines (pre1 ++ pre2)) = [] -> concat reads = pre2 ++ b ->
+  let m := len (pre1 ++ pre2) in
+  let E := fst (round nolimit (st_at (len pre1) false) reads) in
+  filter (fun e : emit => m <? fst e) E = with_off m (fst (split_lines b))
+  /\ with_off 0 (fst (split_lines (pre1 ++ pre2 ++ b)))
+     = with_off 0 (fst (split_lines (pre1 ++ pre2))) ++ with_off m (fst (split_lines b)).
+Proof.
+  intros Hend Hreads m E.
+  assert (H2 : snd (split_lines pre2) = []) by (apply (split_tail_nil_right pre1); exact Hend).
+  pose proof (worker_offsets_exact (len pre1) [reads]) as HW. cbv zeta in HW.
+  unfold flat in HW. cbn [map concat] in HW. rewrite app_nil_r, Hreads in HW.
+  cbn [rounds] in HW. destruct (round nolimit (st_at (len pre1) false) reads) as [es st] eqn:Hr.
+  cbn [app] in HW. rewrite app_nil_r in HW. inversion HW as [[He Hs]]; clear HW.
+  subst E. cbn [fst]. rewrite He.
+  destruct (split_lines_spec pre2) as (Hp2 & Hl2 & _). rewrite H2, app_nil_r in Hp2.
+  destruct (split_lines_spec b) as (_ & Hlb & _).
+  assert (Hm : m = len pre1 + len (concat (fst (split_lines pre2)))) by (unfold m; rewrite len_app, <- Hp2; reflexivity).
+  split.
+  - rewrite split_lines_app, H2. cbn [fst app]. rewrite with_off_app, filter_app.
+    rewrite (filter_with_off_le m) by lia. cbn [app]. rewrite <- Hm.
+    apply filter_with_off_gt; [exact Hlb|lia].
+  - rewrite app_assoc, split_lines_app, Hend. cbn [fst app]. rewrite with_off_app. f_equal. f_equal.
+    destruct (split_lines_spec (pre1 ++ pre2)) as (Hpp & _ & _). rewrite Hend, app_nil_r in Hpp.
+    unfold m. rewrite Hpp at 2. lia.
+Qed.
+
+(* the model of the pass (skip loop included) on a file whose saved offset m is a line end inside the content *)
+Theorem lz4_pass_exact n content offs (o : Z) :
+  (0 < n)%nat -> let m := min_list o offs in
+  0 <= m <= len content -> snd (split_lines (take m content)) = [] ->
+  let k := {| z_cfg := nolimit; z_offs := o :: offs; z_frames := [content]; z_n := n |} in
+  let '(L, es, st) := z_pass k in
+  0 <= L <= m
+  /\ filter (fun e : emit => m <? fst e) es = with_off m (fst (split_lines (drop m content)))
+  /\ with_off 0 (fst (split_lines content))
+     = with_off 0 (fst (split_lines (take m content))) ++ with_off m (fst (split_lines (drop m content))).
+Proof.
+  intros Hn m Hm Hend k. unfold z_pass, z_content, z_min. cbn [k z_frames z_offs z_cfg z_n concat].
+  rewrite app_nil_r. fold m.
+  destruct (lz4_skip_spec (Z.of_nat n) m ltac:(lia) (S (length content)) [] content) as (pre' & rest' & Hsk & Hsp & Hle).
+  - lia.
+  - rewrite len_nil. lia.
+  - rewrite len_nil. lia.
+  - rewrite len_nil in Hsk. rewrite Hsk. cbn [app] in Hsp.
+    destruct (round nolimit {| cur := len pre'; tail := []; skip := false |} (chunks n rest')) as [es st] eqn:Hr.
+    assert (HL : len pre' <= m) by lia.
+    (* content = pre' ++ pre2 ++ b with pre' ++ pre2 = take m content *)
+    assert (Hc : content = take m content ++ drop m content) by (unfold take, drop; symmetry; apply firstn_skipn).
+    assert (Htk : len (take m content) = m) by (unfold take; rewrite len_firstn, Z2Nat.id by lia; lia).
+    set (pre2 := drop (len pre') (take m content)).
+    assert (Hpre : take m content = pre' ++ pre2).
+    { unfold pre2, take, drop. rewrite <- (firstn_skipn (Z.to_nat (len pre')) (firstn (Z.to_nat m) content)) at 1.
+      f_equal. rewrite firstn_firstn. replace (Init.Nat.min (Z.to_nat (len pre')) (Z.to_nat m)) with (Z.to_nat (len pre')) by lia.
+      rewrite Hsp. unfold len. rewrite Nat2Z.id. rewrite firstn_app, Nat.sub_diag, firstn_all. cbn [firstn]. apply app_nil_r. }
+    assert (Hrest : rest' = pre2 ++ drop m content).
+    { apply (app_inv_head pre'). rewrite <- Hsp, app_assoc, <- Hpre. exact Hc. }
+    pose proof (lz4_resume_exact pre' pre2 (drop m content) (chunks n rest')) as HT.
+    rewrite <- Hpre in HT. specialize (HT Hend). rewrite chunks_concat in HT by exact Hn. specialize (HT Hrest).
+    cbv zeta in HT. rewrite Htk in HT. unfold st_at in HT. rewrite Hr in HT. cbn [fst] in HT.
+    destruct HT as [HT1 HT2]. rewrite app_assoc, <- Hpre, <- Hc in HT2.
+    split; [pose proof (len_nonneg pre'); lia|]. split; [exact HT1|exact HT2].
+Qed.
 
 (* no size limit: exact equality — whatever ticks and renames are interleaved, a history that ends with a pass
    has delivered exactly the complete lines of everything written, each with its end offset; the tail is exactly
